@@ -338,7 +338,8 @@ def noise_algebra(ctx, fn, args, kwargs, y, base, draws, target=None, snr_lin=No
             if s["pos"] == i:
                 csum = S.add(csum, S.add(S.sabs(cr[i]), S.sabs(ci[i])))
         if target is not None:
-            pw.append(near(powers[i], target, S.add(S.sabs(target), S.mul(xs[i], csum))))
+            alts = target if isinstance(target, tuple) else (target,)
+            pw.append(SP.disj(near(powers[i], t_, S.add(S.sabs(t_), S.mul(xs[i], csum))) for t_ in alts))
         if snr_lin is not None:
             sp = signal_power.reshape(-1)[i] if isinstance(signal_power, np.ndarray) else signal_power
             pw.append(near(S.mul(powers[i], snr_lin), sp, S.add(S.sabs(sp), S.mul(S.mul(xs[i], csum), S.sabs(snr_lin)))))
@@ -687,6 +688,8 @@ def _meas_cfgs(tier):
                 out.append(Cfg("estimate_signal_power", kind, shp, dim, keep))
             out.append(Cfg("calculate_snr", kind, shp, dim, False))
         for shp in ("n3", "2x2", "1x3"):
+            if shp == "2x2" and kind == "complex" and tier == "quick":
+                continue  # path-feasibility query (row noise power < eps under P_n >= 1e-3) needs ~60 s of nlsat on a loaded machine: thorough only
             for mode in ("db", "linear"):
                 out.append(Cfg("metric", kind, shp, mode))
     return out
@@ -996,7 +999,9 @@ def laplacian(ctx, cfg):
             b = ctx.scalar("scale", "real", sampler=lambda r: 10 ** r.uniform(-2, 2))
             ctx.assume(S.lt(0, b))
             chan = LaplacianChannel(scale=power_tensor(ctx, b))
-            target, snr_lin = S.mul(2 * ncomp, sq(b)), None
+            # real input: scale * t, power 2 scale^2.  complex input: the documentation does not say whether `scale` is the scale of each
+            # component (total 4 scale^2) or of the complex sample (total 2 scale^2): both readings are admitted
+            target, snr_lin = (S.mul(2, sq(b)) if ncomp == 1 else (S.mul(4, sq(b)), S.mul(2, sq(b)))), None
         else:
             kw, target, snr_lin = _configure(ctx, how, val)
             chan = LaplacianChannel(**kw)
@@ -1017,3 +1022,209 @@ def laplacian(ctx, cfg):
     ctx.ensure("one_unit_laplacian_per_real_component", all(r == tuple(shape) for r in requested) and len(requested) >= 1)
     xr, xi = PC(x)
     noise_algebra(ctx, chan.forward, (x,), {}, y, (xr, xi), list(ctx.rng_draws), target=target, snr_lin=snr_lin, signal_power=mean_abs2(xr, xi), var_override=2)
+
+
+# ================================================================================================ bounded stand-ins (native, deterministic)
+def _bounded(spec, cfg, name, fail, evals, detail, t0):
+    import time
+
+    r = ObResult(prop=spec.prop, ob=f"{spec.id}/{name}", config=str(cfg), function=spec.function, engine="standin", backend="native", kind="bounded")
+    r.verdict = "discharged" if fail is None else "refuted"
+    r.paths = evals
+    r.witness = fail
+    r.replay_confirmed = None if fail is None else True
+    r.detail = "bounded: " + detail
+    r.wall_s = round(time.time() - t0, 2)
+    return r
+
+
+DECADES = (1e-3, 1e-2, 1e-1, 1.0, 1e1, 1e2, 1e3)
+
+
+def _seed_cfgs(tier):
+    return [Cfg("same_seed", ch, kind) for ch in ("awgn", "laplacian", "nonlinear", "fading", "add_noise_for_snr") for kind in ("real", "complex")]
+
+
+@obligation("C07.same_seed_scaling", function=FA + ":_apply_noise; " + FA + ":AWGNChannel.forward; " + FL + "forward; " + FA + ":NonlinearChannel.forward; " + FA + ":FlatFadingChannel.forward; " + FU + ":add_noise_for_snr", configs=_seed_cfgs, kind="custom", engine="standin")
+def same_seed_scaling(spec, cfg, tier, seed):
+    """noise(seed, P2) == sqrt(P2/P1) * noise(seed, P1) over six decades of P (and of the signal power for the SNR parameterisation):
+    the noise scale is exactly the square root of the configured power.  Deterministic (same torch seed), float32, rtol 2e-4."""
+    import time
+
+    from kaira.channels import analog as A
+    from kaira.utils.snr import add_noise_for_snr
+
+    t0 = time.time()
+    _, ch, kind = cfg
+    g = torch.Generator().manual_seed(1234 + seed)
+    n = 64 if tier == "quick" else 4096
+    x = torch.randn(2, n, generator=g)
+    if kind == "complex":
+        x = torch.complex(x, torch.randn(2, n, generator=g))
+    h = torch.complex(torch.randn(2, n, generator=g), torch.randn(2, n, generator=g))
+
+    def noise_P(P, s=1234):
+        torch.manual_seed(s)
+        if ch == "awgn":
+            return A.AWGNChannel(avg_noise_power=P)(x) - x
+        if ch == "laplacian":
+            return A.LaplacianChannel(avg_noise_power=P)(x) - x
+        if ch == "nonlinear":
+            return A.NonlinearChannel(_cubic if kind == "real" else _square, add_noise=True, avg_noise_power=P)(x) - (_cubic(x) if kind == "real" else _square(x))
+        if ch == "fading":
+            return A.FlatFadingChannel("rayleigh", 4, avg_noise_power=P)(x, csi=h) - h * x
+        return add_noise_for_snr(x * (P**0.5), 10.0)[1]  # signal power scales with P at fixed SNR
+
+    def noise_S(sdb, s=1234):
+        torch.manual_seed(s)
+        if ch == "awgn":
+            return A.AWGNChannel(snr_db=sdb)(x) - x
+        if ch == "laplacian":
+            return A.LaplacianChannel(snr_db=sdb)(x) - x
+        if ch == "nonlinear":
+            return A.NonlinearChannel(_cubic if kind == "real" else _square, add_noise=True, snr_db=sdb)(x) - (_cubic(x) if kind == "real" else _square(x))
+        if ch == "fading":
+            return A.FlatFadingChannel("rayleigh", 4, snr_db=sdb)(x, csi=h) - h * x
+        return add_noise_for_snr(x, sdb)[1]
+
+    fail, evals = None, 0
+    ref = noise_P(1.0)
+    for P in DECADES:
+        got = noise_P(P)
+        evals += 1
+        want = ref * (P**0.5)
+        if not torch.allclose(got, want, rtol=2e-4, atol=1e-6 * (P**0.5)):
+            fail = {"P1": 1.0, "P2": P, "max_abs_dev": float((got - want).abs().max()), "expected_scale": P**0.5, "observed_scale": float((got.abs().mean() / ref.abs().mean()))}
+            break
+    fail2 = None
+    ref = noise_S(0.0)
+    for sdb in (-20.0, -10.0, 0.0, 10.0, 20.0, 30.0, 40.0):
+        got = noise_S(sdb)
+        evals += 1
+        sc = 10 ** (-sdb / 20.0)
+        want = ref * sc
+        if not torch.allclose(got, want, rtol=2e-4, atol=1e-6 * sc):
+            fail2 = {"snr1_db": 0.0, "snr2_db": sdb, "expected_scale": sc, "observed_scale": float((got.abs().mean() / ref.abs().mean()))}
+            break
+    d = f"same-seed relation on a (2,{n}) {kind} input, P in 1e-3..1e3 (7 values), snr in -20..40 dB (7 values); the unit-variance law of torch.randn/rand is assumed (DESIGN 4.2), not sampled"
+    return [_bounded(spec, cfg, "noise_scales_with_sqrt_P", fail, evals, d, t0), _bounded(spec, cfg, "noise_scales_with_10^(-snr/20)", fail2, evals, d, t0)]
+
+
+def _grid_cfgs(tier):
+    return [Cfg("snr_grid", f) for f in ("db_to_linear", "linear_to_db", "to_noise_power", "noise_power_to_snr", "calculate_snr", "metric", "standard_metrics", "zero_and_edge")]
+
+
+@obligation("C07.snr_grid", function=FU + ":snr_db_to_linear; " + FU + ":snr_linear_to_db; " + FU + ":snr_to_noise_power; " + FU + ":noise_power_to_snr; " + FU + ":calculate_snr; " + FM + ":SignalToNoiseRatio.forward; kaira/benchmarks/metrics.py:StandardMetrics.signal_to_noise_ratio", configs=_grid_cfgs, kind="custom", engine="standin")
+def snr_grid(spec, cfg, tier, seed):
+    """exact evaluation of the conversion / measurement functions on a dense grid against the textbook formulas evaluated with mpmath
+    (float inputs, scalars and tensors).  Tolerances: float32 results 2e-6 relative (5e-5 dB), the metric's +eps as stated in C07.snr_eps_lemma."""
+    import time
+
+    import mpmath as mp
+    from kaira.benchmarks.metrics import StandardMetrics
+    from kaira.metrics.signal.snr import SignalToNoiseRatio
+    from kaira.utils import snr as U
+
+    t0 = time.time()
+    f = cfg[1]
+    step = 0.5 if tier == "quick" else 0.05
+    dbs = [-20.0 + step * i for i in range(int(60 / step) + 1)]
+    fail, evals = None, 0
+
+    def bad(got, want, rel, abs_=0.0):
+        return not (abs(float(got) - float(want)) <= rel * abs(float(want)) + abs_)
+
+    if f == "db_to_linear":
+        t = U.snr_db_to_linear(torch.tensor(dbs, dtype=torch.float64))
+        for s, v in zip(dbs, t.tolist()):
+            evals += 2
+            want = mp.mpf(10) ** (mp.mpf(s) / 10)
+            if bad(v, want, 1e-12) or bad(U.snr_db_to_linear(float(s)), want, 2e-6):
+                fail = {"snr_db": s, "tensor_result": v, "float_result": float(U.snr_db_to_linear(float(s))), "required": float(want)}
+                break
+    elif f == "linear_to_db":
+        lins = [10 ** (s / 10) for s in dbs]
+        t = U.snr_linear_to_db(torch.tensor(lins, dtype=torch.float64))
+        for l, v in zip(lins, t.tolist()):
+            evals += 2
+            want = 10 * mp.log10(mp.mpf(l))
+            if bad(v, want, 1e-12, 1e-12) or bad(U.snr_linear_to_db(float(l)), want, 2e-6, 5e-5):
+                fail = {"snr_linear": l, "tensor_result": v, "required": float(want)}
+                break
+    elif f == "to_noise_power":
+        for ps in DECADES:
+            for s in dbs[:: (1 if tier == "thorough" else 4)]:
+                evals += 2
+                want = mp.mpf(ps) / mp.mpf(10) ** (mp.mpf(s) / 10)
+                a = U.snr_to_noise_power(ps, s)
+                b = U.snr_to_noise_power(torch.tensor([ps, ps]), torch.tensor(s))
+                if bad(a, want, 2e-6) or bad(b[1], want, 2e-6):
+                    fail = {"signal_power": ps, "snr_db": s, "float_result": float(a), "tensor_result": float(b[1]), "required": float(want)}
+                    break
+            if fail:
+                break
+    elif f == "noise_power_to_snr":
+        for ps in DECADES:
+            for pn in DECADES:
+                evals += 2
+                want = 10 * mp.log10(mp.mpf(ps) / mp.mpf(pn))
+                a = U.noise_power_to_snr(ps, pn)
+                b = U.noise_power_to_snr(torch.tensor([ps, ps], dtype=torch.float64), torch.tensor([pn, pn], dtype=torch.float64))
+                if bad(a, want, 2e-6, 5e-5) or bad(b[0], want, 1e-12, 1e-12):
+                    fail = {"signal_power": ps, "noise_power": pn, "float_result": float(a), "required": float(want)}
+                    break
+            if fail:
+                break
+    elif f in ("calculate_snr", "metric", "standard_metrics"):
+        g = torch.Generator().manual_seed(77 + seed)
+        for kind in ("real", "complex"):
+            for ps in DECADES:
+                for pn in (1e-3, 1e-1, 1.0, 1e2):
+                    x = torch.randn(3, 16, generator=g, dtype=torch.float64)
+                    nz = torch.randn(3, 16, generator=g, dtype=torch.float64)
+                    if kind == "complex":
+                        x = torch.complex(x, torch.randn(3, 16, generator=g, dtype=torch.float64))
+                        nz = torch.complex(nz, torch.randn(3, 16, generator=g, dtype=torch.float64))
+                    x = x * (ps / float((x.abs() ** 2).mean())) ** 0.5
+                    nz = nz * (pn / float((nz.abs() ** 2).mean())) ** 0.5
+                    want = 10 * mp.log10(mp.mpf(float((x.abs() ** 2).mean())) / mp.mpf(float((nz.abs() ** 2).mean())))
+                    evals += 1
+                    if f == "calculate_snr":
+                        got = U.calculate_snr(x, x + nz)
+                        tol = 1e-9
+                    elif f == "metric":
+                        rows = SignalToNoiseRatio()(x, x + nz)
+                        got = None
+                        for i in range(3):
+                            w = 10 * mp.log10(mp.mpf(float((x[i].abs() ** 2).mean())) / mp.mpf(float((nz[i].abs() ** 2).mean())))
+                            if bad(rows[i], w, 0, 1e-3 * max(1.0, 1e-3 / float((nz[i].abs() ** 2).mean()))):
+                                got, want = rows[i], w
+                        if got is None:
+                            continue
+                        tol = 0
+                    else:
+                        got = StandardMetrics.signal_to_noise_ratio(x, nz)
+                        tol = 1e-9
+                    if bad(got, want, 0, tol if tol else 0.0):
+                        fail = {"kind": kind, "signal_power": ps, "noise_power": pn, "result_db": float(got), "required_db": float(want)}
+                        break
+                if fail:
+                    break
+            if fail:
+                break
+    else:
+        checks = {
+            "linear_to_db(0) == -inf": float(U.snr_linear_to_db(0.0)) == float("-inf"),
+            "linear_to_db([0, 1]) == [-inf, 0]": U.snr_linear_to_db(torch.tensor([0.0, 1.0])).tolist() == [float("-inf"), 0.0],
+            "db_to_linear(0) == 1": float(U.snr_db_to_linear(0.0)) == 1.0,
+            "db_to_linear(10) == 10": abs(float(U.snr_db_to_linear(10.0)) - 10.0) < 1e-5,
+            "to_noise_power(1, 0) == 1": float(U.snr_to_noise_power(1.0, 0.0)) == 1.0,
+            "noise_power_to_snr(2, 2) == 0": float(U.noise_power_to_snr(2.0, 2.0)) == 0.0,
+            "metric of a noiseless signal is +inf": float(SignalToNoiseRatio()(torch.ones(4), torch.ones(4))) == float("inf"),
+            "StandardMetrics with zero noise is +inf": StandardMetrics.signal_to_noise_ratio(torch.ones(4), torch.zeros(4)) == float("inf"),
+        }
+        evals = len(checks)
+        badk = [k for k, v in checks.items() if not v]
+        fail = {"failed": badk} if badk else None
+    d = f"dense grid -20..40 dB step {step}, powers 1e-3..1e3, scalars and tensors, against mpmath; {evals} evaluations"
+    return [_bounded(spec, cfg, "textbook_value_on_grid", fail, evals, d, t0)]
